@@ -11,7 +11,7 @@ from .. import rng as R
 
 LEVEL = "model_checking"
 MODEL_CFG = ("CONSTANTS\n  N = %d\n  Kinds = {\"low\", \"high\"}\nSPECIFICATION Spec\nINVARIANT SoundEnd\nINVARIANT Tight\nINVARIANT Halving\nCHECK_DEADLOCK FALSE\n")
-TRACE_CFG = "SPECIFICATION TraceSpec\nCONSTRAINT Marker\nPOSTCONDITION Post\nCHECK_DEADLOCK FALSE\n"
+TRACE_CFG = "CONSTANTS\n  Strict = TRUE\nSPECIFICATION TraceSpec\nCONSTRAINT Marker\nPOSTCONDITION Post\nCHECK_DEADLOCK FALSE\n"
 
 
 def log_delta_alpha(alpha, rho, eps):
@@ -240,14 +240,18 @@ def run(ctx, canary=False):
                 can.append(c)
         traces = can
     tl = [{"kind": t["kind"], "events": [{k: v for k, v in e.items() if k != "label"} for e in t["events"]], "info": t["info"]} for t in traces]
-    res = T.validate(ctx, "dp/BisectTrace.tla", TRACE_CFG, tl, name="BisectTrace", chunk=400, timeout=7200)
-    for t, (ok, reached, ln) in zip(traces, res):
+    res = T.validate2(ctx, "dp/BisectTrace.tla", TRACE_CFG, TRACE_CFG.replace("Strict = TRUE", "Strict = FALSE"), tl, name="BisectTrace", chunk=400, timeout=7200)
+    for t, (ok, okl, reached, reachedl, ln) in zip(traces, res):
         if t.get("canary"):
             if ok:
                 raise MachineryError("canary accepted: " + t["canary"])
         elif ok:
             ctx.traces_validated += 1
+        elif okl:
+            ctx.deviation("%s: returned values satisfy every relation, but the search is not a behaviour of Bisect.tla: %s" % (
+                t["info"]["call"], T.describe_reject(t, reached)), t["info"])
         else:
+            reached = reachedl
             e = t["events"][reached - 1] if reached <= len(t["events"]) else {}
             what = e.get("label") or ("bisection iteration %d: %s" % (reached, {k: v for k, v in e.items()}))
             ctx.violation("%s: %s fails (a=%s b=%s micro-log units)" % (t["info"]["call"], what, e.get("a"), e.get("b")),
